@@ -472,7 +472,9 @@ func genServeReq(r *hx.Rand) c20ServeReq {
 	wire := genWirePath(r)
 	switch r.Intn(12) {
 	case 0:
-		wire += "?"
+		if r.Chance(1, 4) {
+			wire += "?" // an empty query (recorded finding upstream-url-empty-query when the route adds none)
+		}
 	case 1, 2, 3:
 		wire += "?" + r.Pick(c20Queries[2:9])
 	case 4:
@@ -657,6 +659,8 @@ func init() {
 			})}},
 			// three requests, request ids
 			c20ServeIn{Items: splitFormatItems("$header.X-Request-Id", " ", "$response_status"), Cfg: c20SCfg{ReqID: "X-Request-Id"}, Reqs: []c20ServeReq{base, base, base}},
+			// D26 through ServeHTTP: nothing to print, no line
+			c20ServeIn{Items: []c20Item{{"header", "Referer"}}, Reqs: []c20ServeReq{base}},
 			// answered by the proxy itself: no route, bad remote address, transport error
 			c20ServeIn{Items: c20Common, Reqs: []c20ServeReq{with(func(q *c20ServeReq) { q.Route = nil }), with(func(q *c20ServeReq) { q.Remote = "1.2.3.4" }),
 				with(func(q *c20ServeReq) { q.Up = c20Up{Info: []int{}, Chunks: []int{}, Err: "timeout"} })}},
